@@ -5,7 +5,7 @@ V = os.path.dirname(os.path.dirname(os.path.abspath(__file__)))
 rows = []
 for f in sorted(glob.glob(os.path.join(V, "seeded", "*", "meta.json"))):
     m = json.load(open(f))
-    if "-r2m" not in m["name"] and "-r3m" not in m["name"]:
+    if "-r2m" not in m["name"] and "-r3m" not in m["name"] and "-r4m" not in m["name"]:
         continue
     by = m.get("detected_by_other_check") or (m["property"] if m.get("detected") else "NOT YET")
     needs = re.sub(r"\s+", " ", m.get("needs_to_manifest", "")).strip().replace("|", "/")
@@ -13,7 +13,7 @@ for f in sorted(glob.glob(os.path.join(V, "seeded", "*", "meta.json"))):
     rows.append("| %s | %s | %s |" % (m["name"], needs, by))
 s = open(os.path.join(V, "DESIGN.md")).read()
 head = "| seeded change | needs (from its README) | caught by |"
-a = s.index("**Second and third rounds of seeded changes**")
+a = s.index("**Second, third and fourth rounds of seeded changes**")
 b = s.index("| seeded change | needs (from its README)", a)
 s = s[:b] + head + "\n|---|---|---|\n" + "\n".join(rows) + "\n"
 open(os.path.join(V, "DESIGN.md"), "w").write(s)
